@@ -36,18 +36,20 @@ func (p *psTopic) Peers(_ context.Context) ([]peer.ID, error) {
 	return members, nil
 }
 
-func (p *psTopic) peersDiff(ctx context.Context) (joining, leaving []peer.ID, err error) {
-	p.muMembers.RLock()
+// peersDiff polls the membership and compares it with what the calling watcher has been told
+// so far (known). The topic object is shared by everybody who subscribes to the same name on
+// this instance and outlives them: a watcher that starts later is told of the peers that are
+// already there, and two watchers are each told of every change
+func (p *psTopic) peersDiff(ctx context.Context, known []peer.ID) (joining, leaving, current []peer.ID, err error) {
 	oldMembers := map[peer.ID]struct{}{}
 
-	for _, m := range p.members {
+	for _, m := range known {
 		oldMembers[m] = struct{}{}
 	}
-	p.muMembers.RUnlock()
 
 	all, err := p.ps.api.PubSub().Peers(ctx, options.PubSub.Topic(p.topic))
 	if err != nil {
-		return nil, nil, err
+		return nil, nil, nil, err
 	}
 
 	for _, m := range all {
@@ -66,19 +68,24 @@ func (p *psTopic) peersDiff(ctx context.Context) (joining, leaving []peer.ID, er
 	p.members = all
 	p.muMembers.Unlock()
 
-	return joining, leaving, nil
+	return joining, leaving, all, nil
 }
 
 func (p *psTopic) WatchPeers(ctx context.Context) (<-chan events.Event, error) {
 	ch := make(chan events.Event, 32)
 	go func() {
 		defer close(ch)
+
+		var known []peer.ID
+
 		for {
-			joining, leaving, err := p.peersDiff(ctx)
+			joining, leaving, current, err := p.peersDiff(ctx, known)
 			if err != nil {
 				p.ps.logger.Error("", zap.Error(err))
 				return
 			}
+
+			known = current
 
 			for _, pid := range joining {
 				ch <- pubsub.NewEventPeerJoin(pid, p.Topic())
